@@ -45,10 +45,10 @@ type report struct {
 }
 
 type mapSite struct {
-	id     int
-	keyT   string
-	valT   string
-	pos    string
+	id      int
+	keyT    string
+	valT    string
+	pos     string
 	imports map[string]string // path -> name
 }
 
@@ -170,6 +170,36 @@ func main() {
 					}, nil)
 				}
 			}
+			if yp[pkg.PkgPath] || mp[pkg.PkgPath] {
+				// sync.Pool seam: p.Get() / p.Put(x) -> verifrt.PoolGet(&p) / verifrt.PoolPut(&p, x)
+				astutil.Apply(f, func(c *astutil.Cursor) bool {
+					call, ok := c.Node().(*ast.CallExpr)
+					if !ok {
+						return true
+					}
+					sel, ok := call.Fun.(*ast.SelectorExpr)
+					if !ok || (sel.Sel.Name != "Get" && sel.Sel.Name != "Put") {
+						return true
+					}
+					isPtr, isPool := syncPool(pkg.TypesInfo, sel.X)
+					if !isPool {
+						return true
+					}
+					var recv ast.Expr = sel.X
+					if !isPtr {
+						recv = &ast.UnaryExpr{Op: token.AND, X: sel.X}
+					}
+					name := "PoolGet"
+					if sel.Sel.Name == "Put" {
+						name = "PoolPut"
+					}
+					c.Replace(&ast.CallExpr{Fun: &ast.SelectorExpr{X: ast.NewIdent("verifrt"), Sel: ast.NewIdent(name)}, Args: append([]ast.Expr{recv}, call.Args...)})
+					r.PoolRewrites++
+					changed = true
+					needImport = true
+					return false
+				}, nil)
+			}
 			if yp[pkg.PkgPath] {
 				n0 := site
 				// lock rewrite first (it produces statements that then get yields too)
@@ -201,34 +231,6 @@ func main() {
 							Fun: &ast.SelectorExpr{X: ast.NewIdent("verifrt"), Sel: ast.NewIdent("SpinYield")}}}}},
 					})
 					changed = true
-					return false
-				}, nil)
-				// sync.Pool seam: p.Get() / p.Put(x) -> verifrt.PoolGet(&p) / verifrt.PoolPut(&p, x)
-				astutil.Apply(f, func(c *astutil.Cursor) bool {
-					call, ok := c.Node().(*ast.CallExpr)
-					if !ok {
-						return true
-					}
-					sel, ok := call.Fun.(*ast.SelectorExpr)
-					if !ok || (sel.Sel.Name != "Get" && sel.Sel.Name != "Put") {
-						return true
-					}
-					isPtr, isPool := syncPool(pkg.TypesInfo, sel.X)
-					if !isPool {
-						return true
-					}
-					var recv ast.Expr = sel.X
-					if !isPtr {
-						recv = &ast.UnaryExpr{Op: token.AND, X: sel.X}
-					}
-					name := "PoolGet"
-					if sel.Sel.Name == "Put" {
-						name = "PoolPut"
-					}
-					c.Replace(&ast.CallExpr{Fun: &ast.SelectorExpr{X: ast.NewIdent("verifrt"), Sel: ast.NewIdent(name)}, Args: append([]ast.Expr{recv}, call.Args...)})
-					r.PoolRewrites++
-					changed = true
-					needImport = true
 					return false
 				}, nil)
 				for _, d := range f.Decls {
